@@ -21,6 +21,9 @@ The pool is measured, not assumed (strengthening round 1): per Header field of t
 leave it different from its reset value (mutators) and — self-test, in the runner process — the projects whose result changes
 when the reset of that one field is undone (observers); per set-iteration site of the regenerated table how many compiles
 reached it with >= 2 elements; per module-level / class-level container of the package how many projects see a perturbation.
+Strengthening round 3: the INSERTION sites of every iterated set are regenerated (translate_proc.read_set_insertions) and the pool must
+reach each of them (SETSITE projects; reach per insertion site in the evidence; fail closed for sets iterated in hash order); the element
+types of set-typed attributes are checked against their annotation after every traced compile; set projects run under 9 hash seeds.
 """
 from __future__ import annotations
 
@@ -358,7 +361,9 @@ def main(tier: str) -> int:
         "reads only Header fields (syntactic check of header_parse.py and the functions it imports)",
         "harness/translate_proc.py (fail-closed ast translator): Header.__clear, read_cert/get_cert, IsolatedEnvironment.reset, Lexer.__init__, "
         "the three entry points (order of calls), every iteration over a set-typed expression",
-        "CPython facts: int hashes (hence iteration order of set[int]) do not depend on PYTHONHASHSEED; dicts iterate in insertion order",
+        "CPython facts: int hashes (hence iteration order of set[int]) do not depend on PYTHONHASHSEED; dicts iterate in insertion order. That a "
+        "set annotated set[int] holds ints only is CHECKED: every insertion path (regenerated, translate_proc.read_set_insertions) is exercised by a pool "
+        "project and the element types are compared with the annotation after every traced compile",
         "the file system / cwd / OS directory order are part of the input (glob order of `import \"dir/*\"` is not modelled; the wildcard "
         "projects are compiled in several fresh temporary folders and under every seed, results must agree)",
         "harness/c12.py + c12_run.py (pool of projects, entry-point drivers, byte comparison of results; the self-tests that undo one "
